@@ -19,6 +19,7 @@ func init() {
 			"C15.2 partial elements are an error, not a slice past the end: every index/slice of wire bytes in the decoders is guarded by a length fact or a recover (engine H, shared with C01.2); the element decoder is handed exactly b[:ElemSize] and the cursor advances by exactly ElemSize, both under len(b) ≥ ElemSize; " +
 			"C15.3 method pairing: every krpc type with MarshalBencode/MarshalBinary has the matching Unmarshal on its pointer and vice versa; the nodes file is written and read through the same compact type, and the writer replaces the file (create+truncate); " +
 			"C15.4 tag table: within every wire struct (embedded structs flattened) bencode keys are unique and every field has a tag; " +
+			"C15.6 every error result returned anywhere under the krpc Marshal* methods is nil or handed up from a callee - none is constructed there - so encoding a message assembled by the handlers cannot fail (and MustMarshal in reply() cannot panic) because of a field value such as an out-of-range port taken from the wire; " +
 			"C15.5 encoding is read-only on the message: in everything reachable from the krpc Marshal* methods no append, copy or element store has a destination that is (part of) a field of the value being encoded - append into a message slice would write its spare capacity, which may alias a neighbouring address.",
 		NotDecided: "round-trip identity and decode→encode fixpoint over all values (a value-level statement about the bencode library and net.IP forms); acceptance of every multiple-of-ElemSize input.",
 		Assume:     []string{"github.com/anacrolix/torrent/bencode re-panics runtime errors raised inside UnmarshalBencode callbacks (read in its decoder), so decoder guards are load-bearing"},
@@ -27,6 +28,7 @@ func init() {
 			{ID: "C15.2", Doc: "wire bytes never indexed unguarded; fixed-width element cursor", Floor: 10, Run: c15r2},
 			{ID: "C15.3", Doc: "Marshal/Unmarshal pairing; nodes file", Floor: 8, Run: c15r3},
 			{ID: "C15.4", Doc: "bencode tags unique and complete", Floor: 5, Run: c15r4},
+			{ID: "C15.6", Doc: "encoders do not refuse values: no krpc Marshal* path constructs an error of its own (replies are encoded with MustMarshal in a bare goroutine)", Floor: 10, Run: c15r6},
 			{ID: "C15.5", Doc: "encoders do not write into the message they encode", Floor: 3, Run: c15r5},
 		},
 	})
@@ -515,4 +517,121 @@ func c15r5(w *World, rr *RuleRun) {
 		}
 	}
 	rr.ObligeTrivial("krpc", "encoder closure analysed", "-", true, fmt.Sprintf("%d Marshal* roots, %d reachable functions, %d destinations", len(roots), len(reach), nDest))
+}
+
+// c15r6: reply() and sendError() encode with MustMarshal / panic-on-error inside a goroutine that
+// nothing recovers; an encoder that starts rejecting some value turns that value - which may come
+// straight from a datagram (announce_peer's port is stored unvalidated) - into a process crash.
+func c15r6(w *World, rr *RuleRun) {
+	var roots []*ssa.Function
+	for _, f := range w.P.LibFuncs {
+		if f.Pkg == nil || f.Pkg.Pkg.Name() != "krpc" || f.Signature.Recv() == nil || f.Parent() != nil {
+			continue
+		}
+		if strings.HasPrefix(f.Name(), "Marshal") {
+			roots = append(roots, f)
+		}
+	}
+	reach := w.CG.Reach(roots, func(e *Edge) bool { return w.P.IsLib(e.Callee) })
+	var fns []*ssa.Function
+	seen := map[*ssa.Function]bool{}
+	for f := range reach {
+		for _, g := range append([]*ssa.Function{f}, allAnon(f)...) {
+			if !seen[g] {
+				seen[g] = true
+				fns = append(fns, g)
+			}
+		}
+	}
+	sort.Slice(fns, func(i, j int) bool { return fns[i].Pos() < fns[j].Pos() })
+	errT := types.Universe.Lookup("error").Type()
+	var constructed func(v ssa.Value, depth int) string
+	constructed = func(v ssa.Value, depth int) string {
+		if depth > 6 {
+			return ""
+		}
+		switch x := v.(type) {
+		case *ssa.Const:
+			return ""
+		case *ssa.Parameter, *ssa.FreeVar:
+			return ""
+		case *ssa.Extract:
+			return "" // handed up from a callee
+		case *ssa.Phi:
+			for _, e := range x.Edges {
+				if s := constructed(e, depth+1); s != "" {
+					return s
+				}
+			}
+			return ""
+		case *ssa.Call:
+			if o := calleeObj(x.Common()); o != nil && o.Pkg() != nil {
+				pp := o.Pkg().Path()
+				if (pp == "errors" && o.Name() == "New") || (pp == "fmt" && o.Name() == "Errorf") {
+					return pp + "." + o.Name()
+				}
+			}
+			return ""
+		case *ssa.UnOp:
+			if al, ok := x.X.(*ssa.Alloc); ok && al.Referrers() != nil {
+				for _, r := range *al.Referrers() {
+					if st, ok := r.(*ssa.Store); ok && st.Addr == al {
+						if s := constructed(st.Val, depth+1); s != "" {
+							return s
+						}
+					}
+				}
+			}
+			return ""
+		case *ssa.MakeInterface:
+			if c, ok := x.X.(*ssa.Const); ok && c.IsNil() {
+				return ""
+			}
+			return "a value of type " + x.X.Type().String()
+		}
+		return ""
+	}
+	n := 0
+	for _, f := range fns {
+		res := f.Signature.Results()
+		ei := -1
+		for i := 0; i < res.Len(); i++ {
+			if types.Identical(res.At(i).Type(), errT) {
+				ei = i
+			}
+		}
+		if ei < 0 {
+			continue
+		}
+		for _, b := range f.Blocks {
+			for _, ins := range b.Instrs {
+				r, ok := ins.(*ssa.Return)
+				if !ok || len(r.Results) <= ei {
+					continue
+				}
+				n++
+				what := constructed(r.Results[ei], 0)
+				if what != "" {
+					// wrapping a callee's failure is still handing it up: every path to this return
+					// already carries "some callee returned a non-nil error"
+					st := w.FE.StateBefore(ins)
+					wrapped := true // an empty state: the callee cannot fail, the return is unreachable
+					for _, alt := range st {
+						if !alt.Has("n", true, func(x *Term) bool {
+							return (x.Op == OpExtract && len(x.Args) == 1 && x.Args[0].Op == OpCall) || x.Op == OpCall
+						}) {
+							wrapped = false
+						}
+					}
+					if wrapped {
+						what = ""
+					}
+				}
+				rr.At(w, ins, "an encoder returns nil or a callee's error, never an error of its own making", what == "", what)
+			}
+		}
+	}
+	if n == 0 {
+		rr.Broken("no error-returning function under the krpc Marshal* methods")
+	}
 }
